@@ -4,7 +4,7 @@ C=$1; T=$2; shift 2
 cd $C
 run1() {
   h=$1
-  q=$(case $h in dir_rm_*|dir_ins_*|dir_look_*) echo src/internal/verif/h_dir.rs;; cache_c_*|cache_p_*) echo src/internal/verif/h_cache.rs;; *) grep -lE "fn $h\(\)|^[a-z_0-9]+!\( *$h *[,)]" src/internal/verif/*.rs | head -1;; esac | xargs basename | sed "s/\.rs$//")
+  q=$(case $h in dir_rm_*|dir_ins_*|dir_look_*) echo src/internal/verif/h_dir.rs;; cache_c_*|cache_p_*|cache_f_*) echo src/internal/verif/h_cache.rs;; *) grep -lE "fn $h\(\)|^[a-z_0-9]+!\( *$h *[,)]" src/internal/verif/*.rs | head -1;; esac | xargs basename | sed "s/\.rs$//")
   (ulimit -v 25000000; timeout $T env CARGO_NET_OFFLINE=true cargo kani -Z stubbing -Z unstable-options --no-memory-safety-checks --no-assertion-reach-checks --harness internal::verif::$q::$h --exact --target-dir ../t_$h --cbmc-args --max-field-sensitivity-array-size ${FS:-4096} > /tmp/kp_$h.log 2>&1; rm -rf ../t_$h)
 }
 export -f run1; export T
